@@ -79,7 +79,7 @@ def run(rep, tier):
                    "best_effort_delete (payload reclaim) may only be called by the commit and delete protocols", e.where())
 
     # ------------------------------------------------------------------ R08.2 ordering
-    rep.rule("R08.2", "payload -> pointer -> reclaim: f(..) before the metadata put, reclaim only after the compute section returned Ok; delete: pointer before payload; rename: copy Ok before delete", floor=9)
+    rep.rule("R08.2", "payload -> pointer -> reclaim: f(..) before the metadata put, reclaim only after the compute section returned Ok; delete: pointer before payload; rename: copy Ok before delete; no payload write after the commit", floor=15)
     um = prog.fn(SC + "::update_meta_with")
     rep.saw(um, len(um.events))
     K = find_body(prog, prog.fn(SC + "::update_meta_with", body=False), lambda b: any(
@@ -95,6 +95,26 @@ def run(rep, tier):
         okf |= set(K.result_edges(c)[0])
     rep.ob("R08.2", "f-before-pointer|update_meta_with", len(fc) >= 2 and bool(mput) and bool(okf) and K.must_pass(okf, [p.block for p in mput]),
            "the metadata put (commit point) must follow a successful f(..) (which writes the payload) on every path", mput[0].where() if mput else K.file)
+    # no payload-class backend write after the pointer commit: whatever a wrapper method writes for the generation it is about to
+    # publish (payload put, multipart completion, copy) is on the backend before update_meta_with returns - inside the compute
+    # callback or before the call - never after it (a crash in between would leave a listed key whose generation does not exist)
+    npw = 0
+    for f in prog.fns.values():
+        if not ostore.in_scope(f):
+            continue
+        ums = f.calls_named(r"SidecarStore::<T, M>::update_meta_with$")
+        if not ums:
+            continue
+        after = set()
+        for u in ums:
+            after |= f.reachable_from([u.block]) - {u.block}
+        late = [e for (ff, e, m) in events if ff is f and m not in ("delete", "delete_stream", "abort") and e.block in after]
+        npw += 1
+        rep.saw(f, len(ums))
+        rep.ob("R08.2", "no-payload-write-after-commit|%s" % prog.outer_fn(f).path.replace("anda_object_store::", ""), not late,
+               "a backend write of the new generation is issued after the metadata pointer was committed", late[0].where() if late else ums[0].where())
+    if npw < 6:
+        rep.fault("R08.2: only %d functions committing through update_meta_with found" % npw)
     rep.ob("R08.2", "fresh-read-before-f|update_meta_with", bool(fetch) and bool(fc) and all(K.must_pass([x.block for x in fetch], [c.block]) for c in fc)
            and not K.calls_named(r"moka::future::cache::Cache::<K, V, S>::get$"),
            "the current document is resolved from the backend (fetch_meta_bytes), not from the cache, before f(..) runs", K.file + ":%d" % K.line)
